@@ -196,7 +196,30 @@ func VH_C03_chain() {
 		rt = append(rt, impl.handler(k))
 		k++
 	}
-	if ngrp > 0 {
+	if ngrp >= 2 {
+		// one group per group handler, nested; a sibling route and a sibling group are
+		// registered after the route under test (their handlers must never run for it)
+		other := func(c Context) { impl.ev(99) }
+		var nest func(level int)
+		nest = func(level int) {
+			if level == ngrp {
+				f.Get("/r", rt...)
+				f.Get("/sibling", other)
+				return
+			}
+			path := ""
+			if level == 0 {
+				path = "/g"
+			}
+			f.Group(path, func() {
+				nest(level + 1)
+				if level == ngrp-1 {
+					f.Group("/x", func() { f.Get("/y", other) }, other)
+				}
+			}, grp[level])
+		}
+		nest(0)
+	} else if ngrp > 0 {
 		f.Group("/g", func() { f.Get("/r", rt...) }, grp...)
 	} else {
 		f.Get("/g/r", rt...)
